@@ -531,7 +531,8 @@ template <class K> struct World {
             if (ovf) r.overflow_skipped = true;
             if (!ovf && (r.cls == XC_OK || r.cls == XC_ILLCOND) && cfg.chk_identity && factored_now) {
                 IdentityStats st;
-                double th = (o.fact == SamePattern_SameRowPerm) ? 0.0 : o.thresh;
+                // also when remembered pivots are re-used: [sdcz]pivotL keeps a remembered pivot only if it passes the same threshold test
+                double th = o.thresh;
                 std::string e = check_identity<K>(Ad, n, n, &s.L, &s.U, s.perm_r, s.perm_c, th, true, &st);
                 r.ident_ratio = st.max_ratio;
                 if (!e.empty()) viol(r, "identity", e);
